@@ -1,3 +1,125 @@
-import Mwp.Spec.Exec
+/-
+  C03 — the calculus is sound for the SHAPE of exact final values.  Whatever matrix `sem` derives
+  for a command (any choice vector), every terminating exact execution of the command from the
+  initial store — any branch outcomes, any loop counts — leaves in every variable `x` a polynomial
+  of the shape column `x` prescribes (`Spec.Shape`): it mentions only listed variables, a max-listed
+  variable occurs only as a monomial of its own, at most one such monomial, and then no
+  weak-listed variable beside it.
+
+  Proof (Mwp/Lemmas/ExecSound*.lean): the invariant "the store respects `F`" (`ExecSound.Inv`) is
+  carried through `exec`; a command with matrix `M` takes it from `F` to `F ⊗ M`
+  (`ExecSound.exec_inv`).  The invariant is upward closed in the matrix, a branch lies below the
+  sum, every power of a body lies below its closure (the closure is a fixed point of
+  `S ↦ I ⊕ A·S`), rule L only adds entries.  The side conditions of rules W and L are not needed
+  for this statement — it speaks about one execution at a time, not about a bound uniform in the
+  iteration count — and neither is the freshness of loop guards: `exec_respects_derivation` keeps
+  the hypothesis `loopGuardsFresh` it was asked with, `exec_respects_derivation_any_guard` drops it.
+-/
+import Mwp.Lemmas.ExecSound
 namespace Mwp.Props.C03
+open Mwp Mwp.Spec
+
+/-- (S1) a single skip / copy / `+` / `*`, every alternative -/
+theorem leaf_respects (U : List Var) (hU : U.Nodup) (cmd : Cmd) (_hleaf : cmd.isLeaf)
+    (hv : ∀ v ∈ cmd.vars', v ∈ U)
+    (c : Choice) (k : Nat) (M : SMat) (hs : sem U cmd 0 c = some (k, M))
+    (fuel : Nat) (path p' : Path) (σ : Store) (he : exec fuel cmd path [] = some (p', σ)) :
+    ∀ x ∈ U, Shape (σ.get x) (colM U M x) (colW U M x) (colP U M x) = true :=
+  ExecSound.exec_shape U hU cmd hv c k M hs fuel path p' σ he
+
+/-- (S2) leaves and sequences -/
+theorem straightline_respects (U : List Var) (hU : U.Nodup) (cmd : Cmd) (_hsl : cmd.straightLine)
+    (hv : ∀ v ∈ cmd.vars', v ∈ U)
+    (c : Choice) (k : Nat) (M : SMat) (hs : sem U cmd 0 c = some (k, M))
+    (fuel : Nat) (path p' : Path) (σ : Store) (he : exec fuel cmd path [] = some (p', σ)) :
+    ∀ x ∈ U, Shape (σ.get x) (colM U M x) (colW U M x) (colP U M x) = true :=
+  ExecSound.exec_shape U hU cmd hv c k M hs fuel path p' σ he
+
+/-- (S3) leaves, sequences and if/else -/
+theorem loopfree_respects (U : List Var) (hU : U.Nodup) (cmd : Cmd) (_hlf : cmd.noLoops)
+    (hv : ∀ v ∈ cmd.vars', v ∈ U)
+    (c : Choice) (k : Nat) (M : SMat) (hs : sem U cmd 0 c = some (k, M))
+    (fuel : Nat) (path p' : Path) (σ : Store) (he : exec fuel cmd path [] = some (p', σ)) :
+    ∀ x ∈ U, Shape (σ.get x) (colM U M x) (colW U M x) (colP U M x) = true :=
+  ExecSound.exec_shape U hU cmd hv c k M hs fuel path p' σ he
+
+/-- (S4) Every matrix the calculus derives is respected by every terminating execution: whatever
+    the branch outcomes and loop counts, the exact final value of every variable has the shape its
+    column prescribes. -/
+theorem exec_respects_derivation (U : List Var) (hU : U.Nodup) (cmd : Cmd)
+    (hv : ∀ v ∈ cmd.vars', v ∈ U)
+    (c : Choice) (k : Nat) (M : SMat) (hs : sem U cmd 0 c = some (k, M))
+    (fuel : Nat) (path p' : Path) (σ : Store) (he : exec fuel cmd path [] = some (p', σ))
+    (_hloop : loopGuardsFresh cmd) :
+    ∀ x ∈ U, Shape (σ.get x) (colM U M x) (colW U M x) (colP U M x) = true :=
+  ExecSound.exec_shape U hU cmd hv c k M hs fuel path p' σ he
+
+/-- the same without any hypothesis on loop guards -/
+theorem exec_respects_derivation_any_guard (U : List Var) (hU : U.Nodup) (cmd : Cmd)
+    (hv : ∀ v ∈ cmd.vars', v ∈ U)
+    (c : Choice) (k : Nat) (M : SMat) (hs : sem U cmd 0 c = some (k, M))
+    (fuel : Nat) (path p' : Path) (σ : Store) (he : exec fuel cmd path [] = some (p', σ)) :
+    ∀ x ∈ U, Shape (σ.get x) (colM U M x) (colW U M x) (colP U M x) = true :=
+  ExecSound.exec_shape U hU cmd hv c k M hs fuel path p' σ he
+
+/-- Composition, the general form behind it: from ANY store that respects a matrix `A`
+    (`Respects U σ A`: every value has the shape column `x` of `A` prescribes; `A` is `|U|`-rowed
+    and free of ∞), a command with derived matrix `M` leads to a store that respects `A ⊗ M`. -/
+theorem exec_respects_composition (U : List Var) (hU : U.Nodup) (cmd : Cmd)
+    (hv : ∀ v ∈ cmd.vars', v ∈ U)
+    (idx : Nat) (c : Choice) (k : Nat) (M : SMat) (hs : sem U cmd idx c = some (k, M))
+    (fuel : Nat) (path p' : Path) (σ σ' : Store) (he : exec fuel cmd path σ = some (p', σ'))
+    (A : SMat) (hA : A.length = U.length)
+    (hAfin : ∀ i, i < U.length → ∀ j, j < U.length → SMat.get A i j ≠ .i)
+    (hR : Respects U σ A) : Respects U σ' (SMat.mul A M) :=
+  ExecSound.exec_respects_mul U hU cmd hv idx c k M hs fuel path p' σ σ' he A hA hAfin hR
+
+/-! ## non-vacuity -/
+
+/-- the sentence is not trivially true: two max-listed variables added / a max-listed variable in
+    a product / a weak-listed variable beside a max-listed one / an unlisted variable -/
+example : Shape [["y"], ["z"]] ["y", "z"] [] [] = false ∧ Shape [["y", "z"]] ["y"] ["z"] [] = false ∧
+    Shape [["y"], ["z"]] ["y"] ["z"] [] = false ∧ Shape [["y"], ["z"]] ["y"] [] [] = false ∧
+    Shape [["y"], ["y"]] ["y"] [] [] = false := by decide
+
+/-- the three alternatives of `x = y + z` are three different true sentences about `y + z` -/
+example : Shape [["y"], ["z"]] ["y"] [] ["z"] = true ∧ Shape [["y"], ["z"]] ["z"] [] ["y"] = true ∧
+    Shape [["y"], ["z"]] [] ["y", "z"] [] = true := by decide
+
+private def U3 : List Var := ["x", "y", "z"]
+
+/-- a counted loop `loop z { x = x + y }`, alternative 0, three iterations: the hypotheses hold
+    and the conclusion is the sentence for `x + y + y + y` against `(M, W, P) = ({x}, ∅, {y, z})` -/
+example :
+    Shape [["x"], ["y"], ["y"], ["y"]] ["x"] [] ["y", "z"] = true :=
+  exec_respects_derivation U3 (by decide) (.loop "z" (.bin "+" "x" (.var "x") (.var "y")))
+    (by decide) [0] 1 [[.m, .o, .o], [.p, .m, .o], [.p, .o, .m]] (by decide)
+    5 [3] [] [("x", [["x"], ["y"], ["y"], ["y"]])] (by decide) (by decide) "x" (by decide)
+
+/-- `if … { x = y * z } else { x = y }; while … { y = x }` along the path "then, two iterations":
+    both `x` and `y` end as `y·z`, against `(∅, {y, z}, ∅)` -/
+example :
+    Shape [["y", "z"]] [] ["y", "z"] [] = true :=
+  exec_respects_derivation U3 (by decide)
+    (.seq [.ite (.bin "*" "x" (.var "y") (.var "z")) (.asgnVar "x" "y"), .while_ (.asgnVar "y" "x")])
+    (by decide) [0] 1 [[.o, .o, .o], [.w, .w, .o], [.w, .w, .m]] (by decide)
+    10 [1, 2] [] [("y", [["y", "z"]]), ("x", [["y", "z"]])] (by decide) (by decide) "y" (by decide)
+
+/-- composition from a non-initial store: `x` holds `y + z`, which respects the matrix of
+    `x = y + z` under alternative 0; running `y = x * x` (matrix `B`) from there gives a store
+    that respects the product -/
+example :
+    Respects U3 [("y", [["y", "y"], ["y", "z"], ["y", "z"], ["z", "z"]]), ("x", [["y"], ["z"]])]
+      (SMat.mul [[.o, .o, .o], [.m, .m, .o], [.p, .o, .m]] [[.m, .w, .o], [.o, .o, .o], [.o, .o, .m]]) :=
+  exec_respects_composition U3 (by decide) (.bin "*" "y" (.var "x") (.var "x")) (by decide)
+    0 [0] 1 [[.m, .w, .o], [.o, .o, .o], [.o, .o, .m]] (by decide)
+    2 [] [] [("x", [["y"], ["z"]])] _ (by decide)
+    [[.o, .o, .o], [.m, .m, .o], [.p, .o, .m]] (by decide) (by decide) (by unfold Respects; decide)
+
+/-- derivations do fail: `while … { x = x + y }` has no matrix under alternative 0 (rule W) but
+    has one under alternative 2 -/
+example : sem U3 (.while_ (.bin "+" "x" (.var "x") (.var "y"))) 0 [0] = none ∧
+    sem U3 (.while_ (.bin "+" "x" (.var "y") (.var "z"))) 0 [2] =
+      some (1, [[.m, .o, .o], [.w, .m, .o], [.w, .o, .m]]) := by decide
+
 end Mwp.Props.C03
